@@ -63,6 +63,10 @@ type Case struct {
 	Max  int64   `json:"max,omitempty"`
 	Vals []int64 `json:"vals,omitempty"`
 
+	// fmt: laws on termformat for one expression and a sequence of calls
+	Expr  string    `json:"expr,omitempty"`
+	Calls []FmtCall `json:"calls,omitempty"`
+
 	// cli
 	Args  []string `json:"args,omitempty"`
 	Input string   `json:"input,omitempty"`
@@ -146,6 +150,7 @@ func Run(c *run.Ctx) {
 	}
 	pins(c)
 	scalerLaws(c)
+	formatterLaws(c)
 	renderCases(c)
 	cliCases(c)
 }
@@ -161,8 +166,15 @@ func runCase(c *run.Ctx, cs *Case) {
 		classes = e.runScale()
 	case "cli":
 		classes = e.runCLI()
+	case "fmt":
+		e.runFmt()
 	default:
+		shadowFails = nil
 		classes = e.runRender()
+		for _, m := range shadowFails {
+			e.fail("number", "%s", m)
+		}
+		shadowFails = nil
 	}
 	for _, f := range e.fails {
 		fp := ""
@@ -221,6 +233,8 @@ func describe(cs *Case) string {
 		return fmt.Sprintf("scaler=%s min=%d max=%d", cs.Scale, cs.Min, cs.Max)
 	case "cli":
 		return "rare " + strings.Join(cs.Args, " ")
+	case "fmt":
+		return fmt.Sprintf("format=%q calls=%d", cs.Expr, len(cs.Calls))
 	case "rtable":
 		return fmt.Sprintf("%s maxCols=%d maxRows=%d renders=%d", s, cs.Cols, cs.Rows, len(cs.TSteps))
 	}
